@@ -348,6 +348,21 @@ def encode(case, obs):
         s['sc'] = [int(x) for x in (sem['spike_clusters'] if sem.get('spike_clusters') is not None else sem['spike_templates'])]
         s['amps'] = [D.tok(float(a)) for a in sem['amplitudes']]
         s['nspikes'] = int(sem['n_spikes'])
+        # ... and so do the stored templates, the channel positions, the sampling rate and (when the dataset has
+        # whitening_mat_inv.npy, or no whitening matrix at all) the inverse whitening matrix.  Still read from the
+        # loaded model: the cluster waveforms of a curated dataset (C08), the inverse of whitening_mat.npy, probes, features
+        def t3(x):
+            return [[[D.tok(float(v)) for v in row] for row in t] for t in x]
+        s['tdata'] = t3(sem['templates'])
+        if sem.get('spike_clusters') is None:
+            s['cdata'] = s['tdata']         # the uncurated branch of _load_data: the cluster waveforms ARE the templates
+        s['pos'] = [[D.tok(float(v)) for v in row] for row in sem['positions']]
+        s['rate'] = D.tok(float(sem['rate']))
+        nc = sem['n_channels']
+        if sem.get('wmi') is not None:
+            s['wmi'] = [[D.tok(float(v)) for v in row] for row in sem['wmi']]
+        elif sem.get('wm') is None:
+            s['wmi'] = [[D.tok(1.0 if r == c else 0.0) for c in range(nc)] for r in range(nc)]
     if obs[0] == 'big':
         if not s['periodic']:
             raise ValueError('C09 regime: the tiled dataset did not load as a periodic one')
